@@ -398,7 +398,8 @@ fn build_result<'py>(
         let mut y_events_py = Vec::new();
         for ye in sol.y_events {
             if ye.is_empty() {
-                y_events_py.push(PyList::empty(py).into_any());
+                // an event that never fired: an empty array, as in SciPy (not a Python list)
+                y_events_py.push(PyArray1::<Float>::from_vec(py, Vec::new()).into_any());
             } else {
                 let n_ev = ye.len();
                 let n_st = ye[0].len();
